@@ -61,6 +61,13 @@ def showEdges (l : List (Edge Nat Nat)) : String :=
   "[" ++ ",".intercalate (l.map fun (u, v, e) => s!"{u}>{v}:{e}") ++ "]"
 def showKeys (l : List Nat) : String := "[" ++ ",".intercalate (l.map toString) ++ "]"
 
+def showKeyOpt : Option Nat → String
+  | none => "None" | some k => toString k
+/-- everything a `Path` shows (`to_vec_edges`, `to_vec_nodes`, first/last accessors; `iter_edges`, `iter_nodes`
+    and `Index` are the same lists: `views=ok`) -/
+def showPath (p : List (Edge Nat Nat)) : String :=
+  s!"path={showEdges p} nodes={showKeys (pathNodes p)} first={showKeyOpt (pathFirstNode p)} last={showKeyOpt (pathLastNode p)} fe={showEdges (pathFirstEdge p).toList} le={showEdges (pathLastEdge p).toList} views=ok"
+
 /-- `u>v:e,u>v:e` or `-` -/
 def parseRej (s : String) : Option (List (Nat × Nat × Nat)) :=
   if s == "-" || s == "" then some [] else
@@ -114,7 +121,7 @@ def doSearch (st : St) (kind dir root target method mode : String) : String :=
       match searchPath adj acc (nodeVal st) k r tgt (mode == "cycle") fuel with
       | none => "out-of-fuel"
       | some (none, run) => s!"path=None{traceStr obs run.st.trace}"
-      | some (some p, run) => s!"path={showEdges p} nodes={showKeys (pathNodes p)}{traceStr obs run.st.trace}"
+      | some (some p, run) => s!"{showPath p}{traceStr obs run.st.trace}"
     else "bad-op"
   | _, _, _, _ => "bad-op"
 
@@ -577,7 +584,7 @@ def doLiveSearch (st : St) (isOrder : Bool) (kind dir root target method mode : 
                 fin st' s!"node={showOpt res}" ts.log
               else if found then
                 let p := backtrack ts.tree
-                fin st' s!"path={showEdges p} nodes={showKeys (pathNodes p)}" ts.log
+                fin st' (showPath p) ts.log
               else fin st' "path=None" ts.log
     | _, _ => (st, "bad-op")
   | _ => (st, "bad-op")
